@@ -31,6 +31,9 @@ def register():
     REGISTRY["C09"] = (p_ctrl.run_c09, "proof")
     REGISTRY["C10"] = (p_ctrl.run_c10, "model_checking")
     REGISTRY["C11"] = (p_ctrl.run_c11, "proof")
+    import p_page
+    REGISTRY["C06"] = (p_page.run_c06, "proof")
+    REGISTRY["C07"] = (p_page.run_c07, "proof")
     import p_signtype
     REGISTRY["C19"] = (p_signtype.run_c19, "proof")
 
